@@ -215,8 +215,8 @@ def run(ctx):
                             judge(prt.args[0], ROW if r == "b" else VAR, "length of a vector appended to %s" % r, st, prt)
                 if r in VARC + ("b",) and m in VECTOR and v.args and not isinstance(v.args[0], ast.Tuple):
                     judge(v.args[0], ROW if r == "b" else VAR, "length of %s" % r, st, v)
-    ctx.require(n_q >= 15, "fewer than 15 typed count uses found")
-    ctx.require(n_g >= 1, "no typed count use found in the stochastic extension")
+    ctx.require(n_q >= 15, "fewer than 15 typed count uses found", rules=['C07.q'])
+    ctx.require(n_g >= 1, "no typed count use found in the stochastic extension", rules=['C17.g'])
 
 
 def _is_mapping_local(ctx, fn, name, st) -> bool:
